@@ -712,9 +712,13 @@ func (s *BgpServer) filterpath(peer *peer, path, old *table.Path) *table.Path {
 	// When 'path' is filtered (path == nil), check 'old' has been sent to this peer.
 	// If it has, send withdrawal to the peer.
 	if path == nil && old != nil {
-		o := peer.policy.ApplyPolicy(peer.TableID(), table.POLICY_DIRECTION_EXPORT, old, options)
-		if o != nil {
-			path = old.Clone(true)
+		// 'old' reached the peer after the same rewrite as 'path': the policy has
+		// to judge the route the peer was sent, not the one stored in the table.
+		if sent, opts, stop := s.prePolicyFilterpath(peer, old, nil); !stop {
+			opts.Validate = s.roaTable.Validate
+			if o := peer.policy.ApplyPolicy(peer.TableID(), table.POLICY_DIRECTION_EXPORT, sent, opts); o != nil {
+				path = old.Clone(true)
+			}
 		}
 	}
 
